@@ -261,9 +261,10 @@ def analyse_unit(unit, repo, scratch, tier, seed, cfg):
             "clause": " ".join(x.strip() for x in glines[cl_line - 1: min(clause[0][1], cl_line + 3)]) if clause else None,
             "site": glines[site_line - 1].strip() if site_line else None,
             "gen_line": site_line, "clause_gen_line": cl_line, "repo_location": orig, "tags": tags, "tag_level": level,
-            # the failing statement is spliced PROOF TEXT (an assert / lemma call of a //@before|after|bodystart hint), not a
-            # clause of the function's contract and not real code
-            "in_hint": bool((m.get("kind") == "ghost" and m.get("tag") in ("ghost-proof", "ghost-body"))
+            # the failing statement is spliced PROOF TEXT (an assert / lemma call of a //@before|after|bodystart hint, or an inductive
+            # loop invariant / decreases clause of //@loop), not a clause of the function's contract and not real code
+            "in_hint": bool((m.get("kind") == "ghost" and m.get("tag") in ("ghost-proof", "ghost-body", "ghost-loop"))
+                            or (0 < cl_line <= len(lm) and lm[cl_line - 1].get("kind") == "ghost" and lm[cl_line - 1].get("tag") == "ghost-loop")
                             or (f is not None and "sig_line" in f and lm[f["sig_line"] - 1].get("item") is not None
                                 and meta["items"][lm[f["sig_line"] - 1]["item"]].get("adapted"))),
         })
